@@ -14,9 +14,22 @@
      c05 tags                  → Some=0 None=1 … | script Some=0 …
      c05 place H T ; <value>   → rust <off:cell,…> roto <off:cell,…>
      c05 roundtrip <shape> <value> → ok|bad  (untransform∘transform and scriptView∘transform)
+     c05 prov F1 | F2 | …  → ok <n functions> <n functions whose certificate lists a parameter> | bad <function id> <instruction index> <its certificate>
+        with F = `<id> <param vars…> ; I1 ; I2 …`: the provenance check of `Model/BoundaryStore.lean`
+        (`checkProg` with the whole-program certificate `certify`) on the lowered items of one script;
+        variables are numbers local to the function, `0` is the context pointer; operands are
+        `v<N>` / `l`, `-` = absent:
+        `as to op` `ca to` `of to op` `rd to op` `wr dst val` `cp dst src` `cl dst src`
+        `rt to|- op…` `cm to op…` `cs to|- ctx callee-id|- retptr|- op…` `dr op` `re op|-` `ct`
+     c05 defuse <initial vars…> | B0 | B1 | …  → ok <n blocks> | bad <block> <instruction index|succ> <var|block>
+        with B = `<successor block indices…> ; I1 ; I2 …` and I = `<vars read…> > <var defined|->`:
+        the definite-assignment check of `Model/BoundaryDefUse.lean` (`Cfg.check` with the certificate
+        `certify`) on the blocks of one lowered function, entry block first
 -/
 import Driver.Util
 import RotoV.Model.Boundary
+import RotoV.Model.BoundaryStore
+import RotoV.Model.BoundaryDefUse
 
 namespace Driver.C05
 open RotoV RotoV.Boundary RotoV.Gen.BoundaryTables
@@ -237,8 +250,118 @@ def doPlace (h : HostLayouts) (ts : List String) : String :=
     | _, _ => "bad-op"
   | _ => "bad-op"
 
+-- ------------------------------------------------------------------ provenance check
+
+open RotoV.BoundaryStore in
+def parseOperand (s : String) : Option Operand :=
+  if s = "l" then some (.lit 0)
+  else if s.startsWith "v" then (s.drop 1).toNat?.map .var
+  else none
+
+open RotoV.BoundaryStore in
+def parseOptOperand (s : String) : Option (Option Operand) :=
+  if s = "-" then some none else (parseOperand s).map some
+
+def parseOptVar (s : String) : Option (Option Nat) :=
+  if s = "-" then some none else s.toNat?.map some
+
+open RotoV.BoundaryStore in
+def parseInstr : List String → Option Instr
+  | ["as", t, o] => do some (.assign (← t.toNat?) (← parseOperand o))
+  | ["ca", t] => do some (.constAddr (← t.toNat?) 0)
+  | ["of", t, o] => do some (.offset (← t.toNat?) (← parseOperand o) 0)
+  | ["rd", t, o] => do some (.read (← t.toNat?) (← parseOperand o))
+  | ["wr", d, v] => do some (.write (← parseOperand d) (← parseOperand v))
+  | ["cp", d, f] => do some (.copy (← parseOperand d) (← parseOperand f) 0)
+  | ["cl", d, f] => do some (.clone (← parseOperand d) (← parseOperand f))
+  | "rt" :: t :: ops => do some (.callRt (← parseOptVar t) (← ops.mapM parseOperand))
+  | "cm" :: t :: ops => do some (.compute (← t.toNat?) (← ops.mapM parseOperand))
+  | "cs" :: t :: c :: f :: r :: ops =>
+    do some (.call (← parseOptVar t) (← parseOperand c) ((← parseOptVar f).getD 1000000000)
+              (← ops.mapM parseOperand) (← parseOptOperand r))
+  | ["dr", o] => do some (.drop (← parseOperand o))
+  | ["re", o] => do some (.ret (← parseOptOperand o))
+  | ["ct"] => some .control
+  | _ => none
+
+/-- split a token list at the `sep` tokens -/
+def splitAt (sep : String) (ws : List String) : List (List String) :=
+  let (cur, acc) := ws.foldl (fun (st : List String × List (List String)) w =>
+    if w = sep then ([], st.1.reverse :: st.2) else (w :: st.1, st.2)) ([], [])
+  (cur.reverse :: acc).reverse
+
+open RotoV.BoundaryStore in
+def parseFunc (ws : List String) : Option Func :=
+  match splitAt ";" ws with
+  | (id :: params) :: instrs => do
+    let body ← (instrs.filter (· ≠ [])).mapM parseInstr
+    some { id := (← id.toNat?), params := (← params.mapM (·.toNat?)), ctxVar := 0, body := body, taint := [] }
+  | _ => none
+
+open RotoV.BoundaryStore in
+def doProv (ws : List String) : String :=
+  match (splitAt "|" ws).mapM parseFunc with
+  | some P0 =>
+    let P := certify P0
+    if checkProg P then s!"ok {P.length} {(P.filter fun f => f.params.any f.taint.contains).length}"
+    else
+      match P.find? (fun f => !f.check P) with
+      | some f =>
+        let ts := " ".intercalate (f.taint.map toString)
+        match (f.body.zipIdx).find? (fun p => !Instr.ok P f.taint p.1) with
+        | some p => s!"bad {f.id} {p.2} {ts}"
+        | none => s!"bad {f.id} ctx {ts}"
+      | none => "bad"
+  | none => "bad-op"
+
+-- ------------------------------------------------------------------ definite assignment
+
+open RotoV.BoundaryDefUse in
+def parseIns (ws : List String) : Option Ins :=
+  match splitAt ">" ws with
+  | [uses, [d]] => do
+    let us ← uses.mapM (·.toNat?)
+    if d = "-" then some { uses := us, defs := none } else some { uses := us, defs := some (← d.toNat?) }
+  | _ => none
+
+open RotoV.BoundaryDefUse in
+def parseBlock (ws : List String) : Option Block :=
+  match splitAt ";" ws with
+  | succs :: instrs => do
+    some { succs := (← succs.mapM (·.toNat?)), instrs := (← (instrs.filter (· ≠ [])).mapM parseIns) }
+  | [] => none
+
+open RotoV.BoundaryDefUse in
+/-- the first instruction of a block that reads a variable outside the set -/
+def firstBadRead : List Ins → List Nat → Nat → Option (Nat × Nat)
+  | [], _, _ => none
+  | i :: rest, s, k =>
+    match i.uses.find? (fun u => !s.contains u) with
+    | some u => some (k, u)
+    | none => firstBadRead rest (match i.defs with | some d => d :: s | none => s) (k + 1)
+
+open RotoV.BoundaryDefUse in
+def doDefUse (ws : List String) : String :=
+  match splitAt "|" ws with
+  | init :: blocks =>
+    match init.mapM (·.toNat?), blocks.mapM parseBlock with
+    | some initial, some bs =>
+      let g := certify { blocks := bs, initial := initial, entrySets := [] }
+      if g.check then s!"ok {bs.length}"
+      else
+        match (g.blocks.zipIdx).find? (fun p => !g.blockOk p.2 p.1) with
+        | some (blk, b) =>
+          match firstBadRead blk.instrs (g.entrySet b) 0 with
+          | some (k, u) => s!"bad {b} {k} {u}"
+          | none => s!"bad {b} succ"
+        | none => "bad entry"
+    | _, _ => "bad-op"
+  | [] => "bad-op"
+
 def handle (args : List String) : String :=
   match args with
+  | "prov" :: rest => doProv rest
+  | "defuse" :: rest => doDefUse rest
   | "layout" :: h :: ty =>
     match parseHost h, parseTyAll ty with
     | some h, some t => doLayout h t
